@@ -466,6 +466,44 @@ func c20RunSched(sc c20SchedCase, inputs map[c20SynMsg][]byte) ([][]c20MsgOut, [
 	return out, pts
 }
 
+// ---------------------------------------------------------------- emission of model cases
+
+// c20Emit shares repeated call / observation terms between rows (Rocq spends ~10 us per
+// literal byte) and stops adding model rows for random cases when the size budget is used
+// up (the oracle still evaluates every case).
+type c20Emit struct {
+	defs    strings.Builder
+	names   map[string]string
+	n       int
+	size    int
+	budget  int
+	skipped int
+}
+
+func (em *c20Emit) intern(typ, term string) string {
+	if len(term) <= 30 {
+		return term
+	}
+	key := typ + "|" + term
+	if nm, ok := em.names[key]; ok {
+		return nm
+	}
+	em.n++
+	nm := fmt.Sprintf("k%d", em.n)
+	fmt.Fprintf(&em.defs, "Definition %s : %s := %s.\n", nm, typ, term)
+	em.size += len(term) + 40
+	em.names[key] = nm
+	return nm
+}
+
+func (em *c20Emit) room(n int) bool {
+	if em.size+n > em.budget {
+		em.skipped++
+		return false
+	}
+	return true
+}
+
 // ---------------------------------------------------------------- driver
 
 func c20Replay(c *h.Ctx, tt *c20Types) (handled bool) {
@@ -601,20 +639,32 @@ func driveC20(c *h.Ctx) error {
 		return nil
 	}
 
+	em := &c20Emit{names: map[string]string{}, budget: c.Pick(900_000, 6_000_000)}
 	var histRows []string
-	addHist := func(hc c20HistCase) error {
+	addHist := func(hc c20HistCase, always bool) error {
 		full, obs := c20CheckHistory(c, hc)
 		var cs, os_ []string
+		sz := 0
 		for i := range full {
-			cs = append(cs, full[i].coq(tt))
+			ct := full[i].coq(tt)
 			o, err := c20CoqObs(hc.Kind, obs[i], byName)
 			if err != nil {
 				return fmt.Errorf("cannot read back %s output of %v: %w", hc.Kind, full[i], err)
 			}
+			sz += len(ct) + len(o)
+			cs = append(cs, ct)
 			os_ = append(os_, o)
 		}
-		histRows = append(histRows, fmt.Sprintf("(%s, %s, %s)", hc.Kind, h.List(cs), h.List(os_)))
-		c.IndexCase("mism_hist", len(histRows)-1, hc)
+		if always || em.room(sz) {
+			for i := range cs {
+				cs[i] = em.intern("call", cs[i])
+				os_[i] = em.intern("obs", os_[i])
+			}
+			row := fmt.Sprintf("(%s, %s, %s)", hc.Kind, h.List(cs), h.List(os_))
+			em.size += len(row)
+			histRows = append(histRows, row)
+			c.IndexCase("mism_hist", len(histRows)-1, hc)
+		}
 		key, _ := json.Marshal(hc)
 		nontrivial := false
 		for _, cl := range hc.Calls {
@@ -642,7 +692,7 @@ func driveC20(c *h.Ctx) error {
 		rec = func(prefix []c20Call, depth int) error {
 			hc := c20HistCase{Mode: "history", Kind: kind, Calls: append([]c20Call{}, prefix...), Probe: probes[n%len(probes)]}
 			n++
-			if err := addHist(hc); err != nil {
+			if err := addHist(hc, true); err != nil {
 				return err
 			}
 			if depth == 0 {
@@ -674,7 +724,7 @@ func driveC20(c *h.Ctx) error {
 			for hc.Probe.Kind == "clear" || hc.Probe.Kind == "bytes" {
 				hc.Probe = c20RandCall(r)
 			}
-			if err := addHist(hc); err != nil {
+			if err := addHist(hc, false); err != nil {
 				return err
 			}
 			if i == 0 {
@@ -741,8 +791,12 @@ func driveC20(c *h.Ctx) error {
 			}
 			outs = append(outs, h.List(os_))
 		}
-		schedRows = append(schedRows, fmt.Sprintf("(%s, %s, %s)", h.List(work), h.List(sched), h.List(outs)))
-		c.IndexCase("mism_sched", len(schedRows)-1, sc)
+		row := fmt.Sprintf("(%s, %s, %s)", h.List(work), h.List(sched), h.List(outs))
+		if len(schedRows) < 70 || em.room(len(row)) {
+			em.size += len(row)
+			schedRows = append(schedRows, row)
+			c.IndexCase("mism_sched", len(schedRows)-1, sc)
+		}
 	}
 	{
 		// all interleavings of two threads (4 + 4 accesses of each are ordered by the
@@ -811,9 +865,14 @@ func driveC20(c *h.Ctx) error {
 		return err
 	}
 	for i, row := range childRows {
+		if !em.room(len(row)) {
+			continue
+		}
+		em.size += len(row)
 		histRows = append(histRows, row)
 		c.IndexCase("mism_hist", len(histRows)-1, childCases[i])
 	}
+	c.Extra("model_rows_skipped_for_size", em.skipped)
 
 	// ---- cases for the model
 	var sb strings.Builder
@@ -821,6 +880,7 @@ func driveC20(c *h.Ctx) error {
 	sb.WriteString(tt.coqTable())
 	sb.WriteString(tt.coqTags())
 	sb.WriteString(c20CasesPrelude)
+	sb.WriteString(em.defs.String())
 	hdefs, hexpr := h.Chunk("hrows", "wkind * list call * list obs", histRows, 200)
 	sb.WriteString(hdefs)
 	sdefs, sexpr := h.Chunk("srows", "list (list msg) * list nat * list (list (obs * view))", schedRows, 100)
@@ -831,8 +891,9 @@ func driveC20(c *h.Ctx) error {
 }
 
 const c20CasesPrelude = `
-Definition lkp := pure_plan tbl 24.
-Fixpoint leaf_eqb (a b : leaf) : bool :=
+Definition plan_tbl : list (Z * option plan) := Eval vm_compute in map (fun r : Z * tydef => (fst r, pure_plan tbl 24 (fst r))) tbl.
+Definition lkp (ty : Z) : option plan := match clookup plan_tbl ty with Some r => r | None => None end.
+Definition leaf_eqb (a b : leaf) : bool :=
   match a, b with
   | LInt x, LInt y | LLong x, LLong y | LInterval x, LInterval y => x =? y
   | LBool x, LBool y => Bool.eqb x y
@@ -869,7 +930,7 @@ Definition hrow_ok (r : wkind * list call * list obs) : bool :=
   match r with (k, cs, os) => list_eqb obs_eqb (snd (run_calls lkp tag_of cs (enc_new k))) os end.
 Definition ov_eqb (a b : obs * view) : bool := obs_eqb (fst a) (fst b) && view_eqb (snd a) (snd b).
 Definition srow_ok (r : list (list msg) * list nat * list (list (obs * view))) : bool :=
-  match r with (work, sched, out) => list_eqb (list_eqb ov_eqb) (run_threads tbl tag_of 24 work sched) out end.
+  match r with (work, sched, out) => list_eqb (list_eqb ov_eqb) (run_threads tbl tag_of 24 100000 work sched) out end.
 `
 
 // ---------------------------------------------------------------- children
@@ -1062,11 +1123,11 @@ func c20Children(c *h.Ctx, tt *c20Types, corpus []c20CorpusMsg) ([]string, []any
 						}
 						res := out.Results[0][i]
 						v := c20SynValue(t)
-						cl := "OOk"
 						if res.Class == "panic" {
-							cl = "OPanic"
+							rows = append(rows, fmt.Sprintf("(KBin, [CEncode %d %d (%s)], [OPanic])", tt.id(c20Roots[t.Root]), t.Tag, c20CoqValue(tt, v)))
+						} else {
+							rows = append(rows, fmt.Sprintf("(KBin, [CEncode %d %d (%s); CBytes], [OOk; OView (VwBytes %s)])", tt.id(c20Roots[t.Root]), t.Tag, c20CoqValue(tt, v), h.Bytes(res.Out)))
 						}
-						rows = append(rows, fmt.Sprintf("(KBin, [CEncode %d %d (%s); CBytes], [%s; OView (VwBytes %s)])", tt.id(c20Roots[t.Root]), t.Tag, c20CoqValue(tt, v), cl, h.Bytes(res.Out)))
 						rowCases = append(rowCases, map[string]any{"mode": "child-row", "task": t, "note": "output of goroutine 0 of a concurrent cold child"})
 					}
 				}
